@@ -174,19 +174,23 @@ impl Operator {
 /// * separator - Eg. "," ";" " = "
 /// # Return
 /// * string representation of list
-fn format_list<T>(operands: &Vec<T>, separator: &str)
-                  -> String where T: std::fmt::Display {
+fn format_list(operands: &Vec<Goal>, separator: &str) -> String {
     let mut out = "".to_string();
     let mut first = true;
     for op in operands {
-        if first {
-            out += &op.to_string();
-            first = false;
-        }
-        else {
-            out += separator;
-            out += &op.to_string();
-        }
+        if first { first = false; }
+        else { out += separator; }
+        // An operand which is itself an And or an Or must be displayed
+        // between parentheses, otherwise the output reads (and parses)
+        // as a different goal: a, (b; c) is not a, b; c.
+        // The exception is an And inside an Or: a, b; c.
+        let parentheses = match op {
+            Goal::OperatorGoal(Operator::And(_)) => { separator != "; " },
+            Goal::OperatorGoal(Operator::Or(_))  => { true },
+            _ => { false },
+        };
+        if parentheses { out += &format!("({})", op); }
+        else { out += &op.to_string(); }
     }
     return out;
 } // format_list()
